@@ -340,7 +340,7 @@ def run(chk):
                             steps=[dict(request=tdesc(h['t']), model_outcome=h['out']) for h in js['hist']]))
     chk.cov['b2_histories'] = len(seen)
     chk.cov['b2_steps'] = steps
-    chk.assume('user-fixed N lies inside the OMS index axis; slot lists are non-empty; M values are positive')
+    chk.assume('slot lists are non-empty; user M values are positive')
     chk.assume('B2 OMS objects are real OMS instances on a designed 3-ROADM line, grid shrunk via OMS.update_spectrum')
     run_b3(chk)
 
